@@ -1,0 +1,57 @@
+//go:build verif
+
+// Machine-checked contracts of the lifts in this plugin (C18): each operator is ro.Map / ro.MapErr around one
+// call of the wrapped function; the lambda must call it exactly once with the item and return its results.
+// Generated once by `rovc liftgen`, reviewed, and kept as the specification. Comments only.
+
+package rotime
+
+
+//@ func Add$1
+//@   props C18
+//@   maypanic
+//@   track call.*
+//@   ensures [calls-the-wrapped-function-once|C18] count(call.ANY) == 1 && called(call.Time.Add)
+//@   ensures [passes-the-item-and-the-operator-parameters|C18] arg(call.Time.Add, 0) == value && arg(call.Time.Add, 1) == d
+//@   ensures [returns-its-result|C18] result == res(call.Time.Add)
+
+//@ func AddDate$1
+//@   props C18
+//@   maypanic
+//@   track call.*
+//@   ensures [calls-the-wrapped-function-once|C18] count(call.ANY) == 1 && called(call.Time.AddDate)
+//@   ensures [passes-the-item-and-the-operator-parameters|C18] arg(call.Time.AddDate, 0) == value && arg(call.Time.AddDate, 1) == years && arg(call.Time.AddDate, 2) == months && arg(call.Time.AddDate, 3) == days
+//@   ensures [returns-its-result|C18] result == res(call.Time.AddDate)
+
+//@ func Format$1
+//@   props C18
+//@   maypanic
+//@   track call.*
+//@   ensures [calls-the-wrapped-function-once|C18] count(call.ANY) == 1 && called(call.Time.Format)
+//@   ensures [passes-the-item-and-the-operator-parameters|C18] arg(call.Time.Format, 0) == value && arg(call.Time.Format, 1) == format
+//@   ensures [returns-its-result|C18] result == res(call.Time.Format)
+
+//@ func In$1
+//@   props C18
+//@   maypanic
+//@   track call.*
+//@   ensures [calls-the-wrapped-function-once|C18] count(call.ANY) == 1 && called(call.Time.In)
+//@   ensures [passes-the-item-and-the-operator-parameters|C18] arg(call.Time.In, 0) == value && arg(call.Time.In, 1) == loc
+//@   ensures [returns-its-result|C18] result == res(call.Time.In)
+
+//@ func Parse$1
+//@   props C18
+//@   maypanic
+//@   track call.*
+//@   ensures [calls-the-wrapped-function-once|C18] count(call.ANY) == 1 && called(call.Parse)
+//@   ensures [passes-the-item-and-the-operator-parameters|C18] arg(call.Parse, 0) == layout && arg(call.Parse, 1) == value
+//@   ensures [returns-its-results|C18] result0 == res(call.Parse, 0) && result1 == res(call.Parse, 1)
+
+//@ func ParseInLocation$1
+//@   props C18
+//@   maypanic
+//@   track call.*
+//@   ensures [calls-the-wrapped-function-once|C18] count(call.ANY) == 1 && called(call.ParseInLocation)
+//@   ensures [passes-the-item-and-the-operator-parameters|C18] arg(call.ParseInLocation, 0) == layout && arg(call.ParseInLocation, 1) == value && arg(call.ParseInLocation, 2) == loc
+//@   ensures [returns-its-results|C18] result0 == res(call.ParseInLocation, 0) && result1 == res(call.ParseInLocation, 1)
+
